@@ -193,3 +193,8 @@ LOOPFRESH_TABLE = {'canvas.CompositeCanvas.content_delta': (('C02', 'C04'),
  'display._raw_display_base.Screen.draw_screen': (('C04',),
                                                   (('whitespace_at_end', ('$', '$ = False', '$ = True')),),
                                                   'the erase-to-end-of-line shortcut of one row would be applied to the next')}
+
+# NONE-SENTINEL: attributes whose non-None values are always truthy (truthiness test == identity test).
+SENTINEL_EXCEPTIONS = {
+    "ListBox.set_focus_valign_pending": "None or a two-element tuple (valign type, amount): a non-empty tuple is always truthy",
+}
